@@ -85,6 +85,58 @@ def _rate_st():
 _io_st = st.sampled_from(["str", "str", "file"])
 
 
+#: two objects of one column exactly 1/96 beat apart (the closest the quantifier allows), optionally in a crowded measure
+_pair_st = st.fixed_dictionaries(
+    dict(
+        chart=st.integers(0, 2), col=st.integers(0, 7), m=st.integers(0, 4), q=st.integers(0, 3), k=st.integers(0, 94),
+        kind=st.sampled_from(["taps", "holds", "rolls", "head-after-tail"]), crowd=st.sampled_from([0, 0, 5, 7, 9]),
+    )
+)
+
+
+def _with_pair(sk, pair):
+    """Skeleton + the pair (where the column is free there); deterministic."""
+    ci = pair["chart"] % len(sk["charts"])
+    ch = sk["charts"][ci]
+    keys = int(ch["keys"])
+    col = pair["col"] % keys
+    p = F(4 * pair["m"] + pair["q"]) + F(pair["k"], 96)
+    g = F(1, 96)
+
+    def free(c, lo, hi):
+        for kind, cc, b, ln in ch["notes"]:
+            if int(cc) != c:
+                continue
+            b0 = F(b)
+            b1 = b0 + (F(ln) if ln is not None else 0)
+            if b0 - g < hi and b1 + g > lo:
+                return False
+        return True
+
+    new = []
+    if pair["kind"] == "head-after-tail":
+        if not free(col, p - 1, p + g + 1):
+            return sk
+        new = [["holds", col, gen.frs(p - 1), "1/1"], ["rolls", col, gen.frs(p + g), "1/1"]] if p >= 1 else []
+    elif free(col, p, p + g):
+        if pair["kind"] == "taps":
+            new = [["lifts", col, gen.frs(p), None], ["fakes", col, gen.frs(p + g), None]]
+        else:
+            new = [[pair["kind"], col, gen.frs(p), "1/96"]]
+    if not new:
+        return sk
+    if pair["crowd"] and keys > 1:
+        c2 = (col + 1) % keys
+        base = max(F(b) for b, _ in sk["tempo"] if F(b) <= F(4 * pair["m"]))
+        pc = base + ((F(4 * pair["m"]) - base) // 1) + 1 + F(1, pair["crowd"])
+        nxt = [F(b) for b, _ in sk["tempo"] if F(b) > base]
+        if (not nxt or pc < min(nxt)) and free(c2, pc, pc):
+            new.append(["hits", c2, gen.frs(pc), None])
+    out = dict(sk)
+    out["charts"] = [dict(c, notes=list(c["notes"]) + new, rows=None) if i == ci else c for i, c in enumerate(sk["charts"])]
+    return out
+
+
 def built_st(tier):
     return st.fixed_dictionaries(
         dict(
@@ -92,6 +144,7 @@ def built_st(tier):
             rate=_rate_st(),
             io=_io_st,
             empty=st.sampled_from([None] * 11 + [0]),
+            pair=st.one_of(st.none(), st.none(), _pair_st),
         )
     )
 
@@ -647,6 +700,8 @@ def check_built(case, ctx):
     if case.get("empty") is not None and case["empty"] < len(sk["charts"]):
         sk = dict(sk)
         sk["charts"] = [dict(c, notes=[]) if i == case["empty"] else c for i, c in enumerate(sk["charts"])]
+    if case.get("pair"):
+        sk = _with_pair(sk, case["pair"])
     base = ctx.call("history:build", gen.build, sk)
     if case["rate"]:
         _base_domain(ctx, base, "built")
